@@ -15,7 +15,7 @@ class Plugin(HistPlugin):
             'filters mixing equalities, $eq, dotted paths and operator conditions, _id given in the '
             'filter, in the update or nowhere. Non-trivial = an upsert that inserts; distinct by '
             'canonical JSON.')
-    FINDING_BITS = 0
+    FINDING_BITS = 32 | 64
     UNDECIDED_BITS = 1 | 2 | 4 | 16
 
     def gen_case(self, rng, i, tier):
